@@ -192,7 +192,7 @@ def cases_roundtrip(tier, seed):
     out = []
     for a in CLOSED_FORM:
         for form in ("member", "text"):
-            out.append({"arr": a, "form": form, "c": "sym", "c_lt1": True})
+            out.append({"arr": a, "form": form, "c": "sym"})       # whole range [1/64, 1]: the c = 1 branch and its neighbourhood are solver choices
             out.append({"arr": a, "form": form, "c": 1})
             if tier != "quick":
                 out.append({"arr": a, "form": form, "c": 0.5})
@@ -207,7 +207,7 @@ def cases_roundtrip(tier, seed):
 
 
 def cases_forms(tier, seed):
-    return [{"arr": a, "form": f, "c": c, "c_lt1": True} for a in CLOSED_FORM for f in ("member", "text") for c in (("sym",) if tier == "quick" else ("sym", 0.5, 1))]
+    return [{"arr": a, "form": f, "c": c} for a in CLOSED_FORM for f in ("member", "text") for c in (("sym",) if tier == "quick" else ("sym", 0.5, 1))]
 
 
 def cases_czero(tier, seed):
@@ -225,7 +225,7 @@ FAMILIES = [
            bounds="all 8 named arrangements x both label forms (enumeration member, text); NTU, capacity ratio and effectiveness z3 reals", assumptions=AX,
            shim_modules=SHIMS, timeout_ms=30000, split_paths=0, snap="dyadic", validate_every=1),
     Family(name="roundtrip", cases=cases_roundtrip, body=body_roundtrip, functions=FUNCS[:5], files=FILES,
-           bounds="closed-form arrangements {CF, PF, CrFMUmax, CrFMUmin, CondEvap} x both label forms x capacity ratio symbolic in [1/64, 63/64] or 1 (0.5 thorough); "
+           bounds="closed-form arrangements {CF, PF, CrFMUmax, CrFMUmin, CondEvap} x both label forms x capacity ratio symbolic in [1/64, 1] or concrete 1 (0.5 thorough); "
                   "multi-pass counter flow (c = 0.5, 1) and parallel flow (c = 1) with 2 (thorough 2-4) passes -- multi-pass parallel flow at c != 1 needs the root of a "
                   "non-monomial and is outside; range only for CrFMM and shell-and-tube",
            assumptions=AX, shim_modules=SHIMS, timeout_ms=30000, split_paths=0, reach=["effectiveness computed"]),
